@@ -415,7 +415,7 @@ func TestC10(t *testing.T) {
 		}()
 	}
 	wg.Wait()
-	code := run.Finish("sequential: PRNG op sequences (<=40 ops) over 2 networks x 2 transports x {wildcard,a,b} x 3 ports, reference table in lock-step after every op and a full availability sweep at the end; concurrent: 2-8 goroutines x 4-7 ops on 1-2 ports, history checked by porcupine (partitioned by transport/port), non-trivial = at least one pair of overlapping ops, distinct = distinct call/return interleaving signatures; ephemeral: the acceptable port is chosen after the first probe is seen (just before / two before / just after the start, last, first, random, start, none), so every call forces a known fraction of a full cycle from the random offset; plus ReservePort(0) against a table with 1-2 free ports; endpoints (virtual time): TCP and UDP sockets of all families (IPv4, IPv6-only, dual-stack) are bound (wildcard, specific, ephemeral), connected to IPv4 / IPv6 / v4-mapped peers, listened on and closed in PRNG order: two live never-connected sockets with conflicting reservations cannot both have been bound, and once every socket is closed (plus three virtual minutes) every port ever used can be bound again on every transport and family",
+	code := run.Finish("sequential: PRNG op sequences (<=40 ops) over 2 networks x 2 transports x {wildcard,a,b} x 3 ports, reference table in lock-step after every op and a full availability sweep at the end; concurrent: 2-8 goroutines x 4-7 ops on 1-2 ports, history checked by porcupine (partitioned by transport/port), non-trivial = at least one pair of overlapping ops, distinct = distinct call/return interleaving signatures; ephemeral: the acceptable port is chosen after the first probe is seen (just before / two before / just after the start, last, first, random, start, none), so every call forces a known fraction of a full cycle from the random offset; plus ReservePort(0) against a table with 1-2 free ports; endpoints (virtual time): TCP and UDP sockets of all families (IPv4, IPv6-only, dual-stack) are bound (wildcard, specific, ephemeral), connected to IPv4 / IPv6 / v4-mapped peers, listened on and closed in PRNG order: two live never-connected sockets with conflicting reservations cannot both have been bound, and once every socket is closed (plus three virtual minutes) every port ever used can be bound again on every transport and family Later additions: Binds that fail after the port was reserved (address not local, plain or v4-mapped; refusing commit callback) join the everything-released sweep. Directed prologue: bind + connect, a second socket takes the port, the first is closed, a third must still be refused.",
 		[]string{"reference: 6-bit (network x address) set per (transport, port) (h/c10)", "logical clock for call/return stamps: one atomic counter (h/hist)", "release of an entry nobody holds is modelled as a no-op"})
 	os.Exit(code)
 }
